@@ -44,6 +44,7 @@ func RestoreFaultPart(run *report.Run, st *Setup, cases, faultsPerCase int, kind
 			run.Infra(err.Error())
 			return
 		}
+		env.MaybeTTY(run, fmt.Sprint(i), 4)
 		keep := false
 		defer func() {
 			if !keep {
